@@ -89,6 +89,8 @@ theorem merge_noClash (cv : Conv V) (r : Ref) (l t : Sec V) (hwf : wfSec cv t = 
     merge cv false r l t =
       (.mk { l.attrs with definition := fillText l.attrs.definition t.attrs.definition
                           reference := fillText l.attrs.reference t.attrs.reference
+                          filledDef := recFill l.attrs.definition t.attrs.definition l.attrs.filledDef
+                          filledRef := recFill l.attrs.reference t.attrs.reference l.attrs.filledRef
                           merged := some r }
            (l.props ++ t.props) (l.secs ++ clones r t.secs), .ok) := by
   rw [noClash_iff] at hnc
